@@ -43,4 +43,10 @@ class HilbertSchmidtResidualsGenerator(CostFunctionGenerator):
         target: UnitaryMatrix | StateVector | StateSystem,
     ) -> CostFunction:
         """Generate a CostFunction, see CostFunctionGenerator for more info."""
+        target_dim = getattr(target, 'dim', None)
+        if target_dim is not None and target_dim != circuit.dim:
+            raise ValueError(
+                'Target dimension (%d) does not match circuit dimension (%d).'
+                % (target_dim, circuit.dim),
+            )
         return HilbertSchmidtResiduals(circuit, target)
